@@ -195,8 +195,9 @@ class Run:
             'assumptions': self.assumptions,
             'wall_s': round(wall, 2), 'violations': n_viol,
         }
-        os.makedirs(os.path.join(VERIF, 'evidence'), exist_ok=True)
-        with open(os.path.join(VERIF, 'evidence', f'{self.pid}.json'), 'w') as f:
+        evdir = os.path.join(VERIF, 'evidence' if not getattr(self, 'dev', False) else 'evidence_dev')
+        os.makedirs(evdir, exist_ok=True)
+        with open(os.path.join(evdir, f'{self.pid}.json'), 'w') as f:
             json.dump(ev, f, indent=1)
         for l in lines:
             print(l)
